@@ -36,7 +36,17 @@
 
 int __QS_SB_VERB;
 int g_loaded;
-int mpq_QSload_basis(mpq_QSdata *p, QSbasis *B) { g_loaded = 1; return nondet_bool(); }
+int mpq_QSload_basis(mpq_QSdata *p, QSbasis *B)
+{	/* contract of QSload_basis as decided in qsb/QSload_basis: it succeeds only for a basis of the problem's size whose status arrays hold status codes */
+	int r = nondet_bool(), i;
+	g_loaded = 1;
+	if (r == 0) {
+		ASSUME(B->nstruct == NS && B->nrows == NR);
+		for (i = 0; i < NS; i++) ASSUME(B->cstat[i] >= QS_COL_BSTAT_LOWER && B->cstat[i] <= QS_COL_BSTAT_FREE);
+		for (i = 0; i < NR; i++) ASSUME(B->rstat[i] >= QS_ROW_BSTAT_LOWER && B->rstat[i] <= QS_ROW_BSTAT_UPPER);
+	}
+	return r;
+}
 
 static mpq_ILLlpdata *O;
 static int A[NR][NC], b[NR], c[NC], lo[NC], up[NC];	/* dense copy of the LP for the spec */
